@@ -6,7 +6,9 @@
 EXTENDS Joins, Gen
 
 CONSTANTS MaxRows, Wide, FewOns,
-          Big       \* numeric keys 2^24 and 2^24 + 1 (neighbours that a float32 cannot tell apart) instead of 1 and 2
+          Big,      \* numeric keys 2^24 and 2^24 + 1 (neighbours that a float32 cannot tell apart) instead of 1 and 2
+          Many      \* two fixed pairs of long tables (37 / 40 distinct keys against 35 / 33, partly overlapping, with duplicates):
+                    \* more key groups than any fixed number of workers, shares or slots
 
 \* two join columns per side whose names sort differently on the two sides (x.a, x.z / y.m, y.b);
 \* numbers and strings; with Wide a string key containing the separator of the key text
@@ -14,8 +16,10 @@ SVals == IF Wide THEN {StrV(<<112>>), StrV(<<113>>), StrV(<<112, 45>>), StrV(<<4
 NKeys == IF Big THEN {16777216, 16777217} ELSE {1, 2}
 LRows == {Row([a |-> NumV(i), z |-> s]) : i \in NKeys, s \in SVals}
 RRows == {Row([m |-> NumV(i), b |-> s]) : i \in NKeys, s \in SVals}
-Ls == SeqsUpTo(LRows, MaxRows)
-Rs == SeqsUpTo(RRows, MaxRows)
+ManyL(n) == [i \in 1..n |-> Row([a |-> NumV(i), z |-> StrV(IF i % 2 = 0 THEN <<112>> ELSE <<113>>)])]
+ManyR(n) == [i \in 1..n |-> Row([m |-> NumV(IF i > 30 THEN i - 30 ELSE i + 5), b |-> StrV(IF i % 3 = 0 THEN <<112>> ELSE <<113>>)])]
+Ls == IF Many THEN {ManyL(37), ManyL(40)} ELSE SeqsUpTo(LRows, MaxRows)
+Rs == IF Many THEN {ManyR(35), ManyR(33)} ELSE SeqsUpTo(RRows, MaxRows)
 
 XA == ColP(<<"x", "a">>)
 XZ == ColP(<<"x", "z">>)
